@@ -36,6 +36,7 @@ func runC06(p *Program, r *Report) {
 			continue
 		}
 		pe := newPathExplorer(p, f)
+		pe.Inline = true
 		ok := true
 		n := 0
 		for _, pth := range pe.Paths() {
@@ -134,6 +135,33 @@ func runC06(p *Program, r *Report) {
 	checkMemoKeyConditional(p, r, "C06.R4")
 	// ---- R5 who may rewrite nodes --------------------------------------------------------------------------
 	allowed := map[string]bool{"commit": true, "ensurePipelineContains": true}
+	// an unexported helper all of whose callers are allowed is allowed as well (commit split into steps)
+	for round := 0; round < 3; round++ {
+		for _, h := range p.SrcFuncs() {
+			if h.Pkg != tsp || h.Object() == nil || h.Object().Exported() || allowed[cname(h)] {
+				continue
+			}
+			n, all := 0, true
+			for _, f := range p.SrcFuncs() {
+				if f.Pkg != tsp {
+					continue
+				}
+				for _, b := range f.Blocks {
+					for _, in := range b.Instrs {
+						if cl, ok := in.(*ssa.Call); ok && staticCallee(cl.Common()) == h {
+							n++
+							if !allowed[cname(f)] {
+								all = false
+							}
+						}
+					}
+				}
+			}
+			if n > 0 && all {
+				allowed[cname(h)] = true
+			}
+		}
+	}
 	for _, f := range p.SrcFuncs() {
 		if f.Pkg != tsp && !(f.Parent() != nil && f.Parent().Pkg == tsp) {
 			continue
